@@ -101,6 +101,11 @@ impl SwiftField for Field56A {
         }
 
         let bic = parse_bic(lines[bic_line_idx])?;
+        if lines.len() > bic_line_idx + 1 {
+            return Err(ParseError::InvalidFormat {
+                message: "Field 56A has no line after the BIC".to_string(),
+            });
+        }
 
         Ok(Field56A {
             party_identifier,
